@@ -82,6 +82,17 @@ func (b *rawBackend) serve(c net.Conn) {
 		}
 	}
 	switch strOr(plan, "mode", "ok") {
+	case "upgrade":
+		// protocol switch: answer 101 when the request asks for it and the script agrees, then talk over the raw connection
+		if hdr.Get("Upgrade") != "" && strOr(plan, "backend", "101") == "101" {
+			fmt.Fprintf(c, "HTTP/1.1 101 Switching Protocols\r\nUpgrade: %s\r\nConnection: Upgrade\r\nX-Backend: yes\r\n\r\nhello\n", hdr.Get("Upgrade"))
+			c.SetDeadline(time.Now().Add(5 * time.Second))
+			line, _ := br.ReadString('\n')
+			io.WriteString(c, "echo:"+line)
+			return
+		}
+		io.WriteString(c, "HTTP/1.1 200 OK\r\nX-Backend: yes\r\nContent-Length: 5\r\n\r\nplain")
+		return
 	case "close_before_head":
 		return
 	case "reset_before_head":
@@ -106,13 +117,22 @@ func (b *rawBackend) serve(c net.Conn) {
 	for _, h := range list(resp, "hop") {
 		fmt.Fprintf(&w, "%s: resp-%s\r\n", h, h)
 	}
+	for _, h := range list(resp, "conn") { // the headers the response's Connection header names
+		fmt.Fprintf(&w, "%s: resp-%s\r\n", h, h)
+	}
 	chunked := boolOr(resp, "chunked", false)
 	if cn := list(resp, "conn"); len(cn) > 0 {
 		names := make([]string, len(cn))
 		for i, x := range cn {
 			names[i] = x.(string)
 		}
-		fmt.Fprintf(&w, "Connection: %s\r\n", strings.Join(names, ", "))
+		if boolOr(resp, "connlines", false) { // one Connection line per token
+			for _, n := range names {
+				fmt.Fprintf(&w, "Connection: %s\r\n", n)
+			}
+		} else {
+			fmt.Fprintf(&w, "Connection: %s\r\n", strings.Join(names, ", "))
+		}
 	}
 	if strOr(plan, "mode", "ok") == "abort_body" && boolOr(resp, "chunked", false) {
 		// chunked response cut short: head, one chunk, then the connection goes away without the final chunk
@@ -195,6 +215,10 @@ func runFwd(sc Scenario, tr *Trace, seed int64) {
 	hostname, _ := os.Hostname()
 	for _, st := range sc.Steps {
 		mode := strOr(st, "mode", "ok")
+		if mode == "upgrade" {
+			runUpgradeStep(be, st, tr)
+			continue
+		}
 		in := M{"e2e": list(st, "e2e"), "hop": list(st, "hop"), "conn": list(st, "conn"), "upstream": list(st, "upstream"),
 			"tls": boolOr(st, "tls", false), "hostport": boolOr(st, "hostport", false), "passhost": boolOr(st, "passhost", false),
 			"peer": strOr(st, "peer", "v4")}
@@ -269,7 +293,13 @@ func runFwd(sc Scenario, tr *Trace, seed int64) {
 			fmt.Fprintf(&reqb, "%s: up-%s\r\n", h, h)
 		}
 		if cn := names(in["conn"].([]any)); len(cn) > 0 {
-			fmt.Fprintf(&reqb, "Connection: %s\r\n", strings.Join(cn, ", "))
+			if boolOr(st, "connlines", false) { // one Connection line per token
+				for _, n := range cn {
+					fmt.Fprintf(&reqb, "Connection: %s\r\n", n)
+				}
+			} else {
+				fmt.Fprintf(&reqb, "Connection: %s\r\n", strings.Join(cn, ", "))
+			}
 		}
 		reqb.WriteString("\r\n")
 		addr := front.Listener.Addr().String()
@@ -420,6 +450,101 @@ func runFwd(sc Scenario, tr *Trace, seed int64) {
 		tr.Emit(M{"e": "Fwd", "in": in, "out": out, "mode": mode, "status": status, "recorded": rec, "wantok": wantStatus,
 			"resp": respOK, "events": evs, "hang": hang, "clienterr": clientErr, "target": target})
 	}
+}
+
+// runUpgradeStep: a request that asks for a protocol switch (Upgrade + a Connection header in some spelling) through the
+// forwarder to a backend that answers 101 (or declines with 200); afterwards bytes must flow both ways.
+func runUpgradeStep(be *rawBackend, st M, tr *Trace) {
+	be.mu.Lock()
+	be.plan, be.head, be.body = st, "", nil
+	be.mu.Unlock()
+	backendAddr := be.ln.Addr().String()
+	f := forward.New(boolOr(st, "passhost", false))
+	f.Transport = &http.Transport{DisableKeepAlives: true, ResponseHeaderTimeout: 2 * time.Second,
+		DialContext: (&net.Dialer{Timeout: 2 * time.Second}).DialContext}
+	var evMu sync.Mutex
+	var events []any
+	sl := forward.NewStateListener(f, func(_ *url.URL, s int) {
+		evMu.Lock()
+		if s == forward.StateConnected {
+			events = append(events, "connected")
+		} else {
+			events = append(events, "disconnected")
+		}
+		evMu.Unlock()
+	})
+	done := make(chan struct{}, 4)
+	front := httptest.NewServer(http.HandlerFunc(func(w http.ResponseWriter, req *http.Request) {
+		defer func() { done <- struct{}{} }()
+		req.URL = &url.URL{Scheme: "http", Host: backendAddr}
+		sl.ServeHTTP(w, req)
+	}))
+	var reqb bytes.Buffer
+	fmt.Fprintf(&reqb, "GET /up?x=1 HTTP/1.1\r\nHost: front.example.com\r\nUpgrade: %s\r\n", strOr(st, "proto", "demo"))
+	for _, line := range list(st, "connhdr") {
+		fmt.Fprintf(&reqb, "Connection: %s\r\n", line.(string))
+	}
+	reqb.WriteString("X-End: e\r\n\r\n")
+	conn, err := net.Dial("tcp", front.Listener.Addr().String())
+	if err != nil {
+		fatal("dial front: %v", err)
+	}
+	conn.SetDeadline(time.Now().Add(6 * time.Second))
+	conn.Write(reqb.Bytes())
+	br := bufio.NewReader(conn)
+	status, backHdr, upHdr, down, up, body, hang := 0, false, "", false, false, "", false
+	resp, err := http.ReadResponse(br, nil)
+	if err != nil {
+		if ne, ok := err.(net.Error); ok && ne.Timeout() {
+			hang = true
+		}
+	} else {
+		status, backHdr, upHdr = resp.StatusCode, resp.Header.Get("X-Backend") == "yes", resp.Header.Get("Upgrade")
+		if status == http.StatusSwitchingProtocols {
+			line, _ := br.ReadString('\n')
+			down = line == "hello\n"
+			io.WriteString(conn, "ping\n")
+			line, _ = br.ReadString('\n')
+			up = line == "echo:ping\n"
+		} else {
+			b, _ := io.ReadAll(resp.Body)
+			body = string(b)
+		}
+	}
+	conn.Close()
+	select {
+	case <-done:
+	case <-time.After(6 * time.Second):
+		hang = true
+	}
+	front.CloseClientConnections()
+	front.Close()
+	be.mu.Lock()
+	head := be.head
+	be.mu.Unlock()
+	sawUpgrade, sawEnd := false, false
+	if head != "" {
+		lines := strings.Split(head, "\r\n")
+		tp := textproto.NewReader(bufio.NewReader(strings.NewReader(strings.Join(lines[1:], "\r\n") + "\r\n")))
+		hdr, _ := tp.ReadMIMEHeader()
+		sawUpgrade = http.Header(hdr).Get("Upgrade") == strOr(st, "proto", "demo")
+		sawEnd = http.Header(hdr).Get("X-End") == "e"
+	}
+	evMu.Lock()
+	evs := append([]any{}, events...)
+	evMu.Unlock()
+	// does the request ask for the switch? (a Connection token "upgrade", any case, surrounded by optional blanks)
+	asks := false
+	for _, line := range list(st, "connhdr") {
+		for _, tok := range strings.Split(line.(string), ",") {
+			if strings.EqualFold(strings.TrimSpace(tok), "upgrade") {
+				asks = true
+			}
+		}
+	}
+	tr.Emit(M{"e": "Upg", "asks": asks, "backend": strOr(st, "backend", "101"), "status": status, "backHdr": backHdr, "upHdr": upHdr,
+		"proto": strOr(st, "proto", "demo"), "down": down, "up": up, "body": body, "sawUpgrade": sawUpgrade, "sawEnd": sawEnd,
+		"seen": head != "", "events": evs, "hang": hang})
 }
 
 func init() { runners["fwd"] = runFwd }
